@@ -1319,7 +1319,14 @@ def r2(ctx):
             okv = ast.literal_eval(text) == 1
         except Exception:
             okv = False
-        lit = any(ap(c.func) == "ast.literal_eval" and may_execute(pf, c, {**classify("=|"), op_var: "=|"})
+        def _is_literal_eval(c) -> bool:
+            if ap(c.func) == "ast.literal_eval":
+                return True
+            # a module-level helper wrapping ast.literal_eval
+            return isinstance(c.func, ast.Name) and any(
+                h.module is pf.module and h.cls is None and any(ap(x.func) == "ast.literal_eval" for x in calls(h.node, into_defs=True))
+                for h in repo.funcs.get(c.func.id, []))
+        lit = any(_is_literal_eval(c) and may_execute(pf, c, {**classify("=|"), op_var: "=|"})
                   for g_ in pfns for c in calls(g_.node))
         ctx.ob("C11.R2", f"_format_var: inline original `{norm(piece)}` is a comment to the packed-value literal parser",
                okv and lit, ctx.w(fv, piece), f"`<value>{_render(piece, {}, '2')}` must literal-eval to <value> and the packed "
@@ -1482,7 +1489,8 @@ def r2(ctx):
     blk_if = enclosing_stmt(sw[0])
     called = {call_attr(x) for b in blk_if.body for x in calls(b) if _starts_block(x) and call_attr(x) != "Block"}
     name_pats = [u for g in pfns for u in _regex_uses(repo, g)
-                 if any(x is u.call for b in blk_if.body for x in ast.walk(b)) or (g.name in called and not _decides_branch(g, u.call))]
+                 if (any(x is u.call for b in blk_if.body for x in ast.walk(b)) or g.name in called)
+                 and not _decides_branch(g, u.call)]
     ctx.require(len(name_pats) == 1, "C11.R2: block-name pattern in the parser's block-header branch not found")
     blk_re = name_pats[0]
     hdrs = []
@@ -2044,13 +2052,19 @@ def r6(ctx):
             loop = lp
     blk_occ = [o for o in occurrences(lf, is_newblock, blk_fns) if any(a is loop for a in ancestors(o))]
     ctx.require(bool(blk_occ), "C11.R6: the branch of the line loop that starts a new Block was not found")
+    # the arm of the line loop that handles a block header: the outermost if-arm around the Block construction that does
+    # not also hold the per-variable work (the serializer lookup)
+    look_occ = [o for o in occurrences(lf, is_look, look_fns) if any(a is loop for a in ancestors(o))]
     blk_arm = None
     cur = blk_occ[0]
     while cur is not loop and cur is not None:
         p_ = parent(cur)
         if isinstance(p_, ast.If):
-            blk_arm = (p_, "body" if any(cur is x for x in p_.body) else "orelse")
-            break
+            which = "body" if any(cur is x for x in p_.body) else "orelse"
+            arm_nodes = getattr(p_, which)
+            holds_lookup = any(any(a is st_ for a in list(ancestors(o)) + [o]) for o in look_occ for st_ in arm_nodes)
+            if not holds_lookup:
+                blk_arm = (p_, which)
         cur = p_
     ctx.require(blk_arm is not None, "C11.R6: a new Block is started unconditionally in the line loop")
 
@@ -2375,6 +2389,14 @@ def r11(ctx):
                    "text is written only inside the per-block loop: an empty block list (zero-count Variable block) prints "
                    "nothing, from_human_string never recreates it and the datagram differs or cannot be encoded")
     ctx.floor("C11.R11", "loops over msg.blocks.items() in the formatter", found, 1)
+    # ... and the parser gives the zero-count list back: some branch of the block-header handling creates a block *list*
+    # without a block (Message.create_block_list), since every `Block(...)` it builds is an entry
+    cg = CallGraph(repo)
+    pf = repo.fn("HumanMessageSerializer.from_human_string")
+    recreates = [c for g in _parser_fns(repo, cg, pf) for c in calls(g.node, into_defs=True) if call_attr(c) == "create_block_list"]
+    ctx.ob("C11.R11", "from_human_string recreates a block list that has no entries", bool(recreates), pf.where,
+           "the parser only ever adds Block objects: a zero-count Variable block cannot come back from the text "
+           "(CoarseLocationUpdate without Location entries then fails to serialize)")
 
 
 def r12(ctx):
@@ -2584,9 +2606,11 @@ def r16(ctx):
 
     def mentions_nonfinite(e, g) -> bool:
         texts = []
+        docstrings = {id(st_.value) for st_ in ast.walk(e) if isinstance(st_, ast.Expr) and isinstance(st_.value, ast.Constant)}
         for x in ast.walk(e):
             if isinstance(x, ast.Constant) and isinstance(x.value, str):
-                texts.append(x.value.lower())
+                if id(x) not in docstrings:
+                    texts.append(x.value.lower())
             elif isinstance(x, (ast.Name, ast.Attribute)):
                 v = _static_value(repo, g, x)
                 for y in ast.walk(v) if v is not None else []:
@@ -2594,6 +2618,43 @@ def r16(ctx):
                         texts.append(y.value.lower())
         joined = " ".join(texts)
         return "inf" in joined and "nan" in joined
+    # literal_eval sites: in the parser's functions and in the module-level helpers they call
+    fmod = pf.module
+    helper_fns = []
+    for g in fns:
+        for c in calls(g.node, into_defs=True):
+            if isinstance(c.func, ast.Name):
+                for h in repo.funcs.get(c.func.id, []):
+                    if h.module is fmod and h.cls is None and h.parent_fn is None and h not in helper_fns and h not in fns \
+                            and any(ap(x.func) == "ast.literal_eval" for x in calls(h.node, into_defs=True)):
+                        helper_fns.append(h)
+
+    def rewrites_names(e, g) -> bool:
+        """the argument is produced by something that maps the names inf / nan to constants (an ast.NodeTransformer
+        or a helper in this module whose source mentions both spellings)"""
+        for x in ast.walk(e):
+            if isinstance(x, ast.Call):
+                nm = (ap(x.func) or "").split("()")[0].split(".")[0]
+                for ci_ in repo.classes.get(nm, []):
+                    if ci_.module is fmod and mentions_nonfinite(ci_.node, g):
+                        return True
+                for h in repo.funcs.get(nm, []):
+                    if h.module is fmod and mentions_nonfinite(h.node, g):
+                        return True
+        return False
+    n_sites: Dict[str, int] = {}
+    for g in fns + helper_fns:
+        for c in calls(g.node, into_defs=True):
+            if ap(c.func) != "ast.literal_eval" or not c.args:
+                continue
+            guarded = any((not cond.polarity) and mentions_nonfinite(cond.test, g) for cond in conditions(c))
+            okc = guarded or rewrites_names(c.args[0], g)
+            branch = "plain" if guarded else "packed / helper"
+            n_sites[branch] = n_sites.get(branch, 0) + 1
+            ctx.ob("C11.R16", f"parser: literal_eval on the {branch} path is not handed the bare names inf / nan"
+                              + (f" #{n_sites[branch]}" if n_sites[branch] > 1 else ""), okc,
+                   ctx.w(g, c), f"({branch} path) pformat()/repr() print non-finite floats as `inf`, `-inf`, `nan`; literal_eval raises "
+                   "ValueError on them: `Data =| {'SCALE': (1.0, -inf, 1.0)}` does not parse back")
     ok = False
     for g in fns:
         for c in calls(g.node, into_defs=True):
@@ -2606,7 +2667,54 @@ def r16(ctx):
            "text of such a message does not parse back")
 
 
+def r17(ctx):
+    """repr() prints every NaN as `nan`; the sign bit is part of the wire value (the default NaN of x86 has it set) and
+    float('-nan') restores it, so the scalar and the coordinate printers must spell a negative NaN differently."""
+    repo = ctx.repo
+    ctx.rule("C11.R17", "scalar floats and coordinate components are printed through a renderer that keeps the sign of a NaN "
+                        "(a copysign/signbit test yielding '-nan')")
+    fv = repo.fn("HumanMessageSerializer._format_var")
+    fmod = fv.module
+
+    def sign_aware(h: FuncInfo) -> bool:
+        consts = {x.value for x in ast.walk(h.node) if isinstance(x, ast.Constant) and isinstance(x.value, str)}
+        tests = any(call_attr(c) in ("copysign", "signbit") for c in calls(h.node, into_defs=True))
+        return tests and any("-nan" in c_ for c_ in consts)
+    renderers = {h.name for h in repo.all_funcs if h.module is fmod and sign_aware(h)} | \
+                {h.name for h in repo.all_funcs if h.module.rel == "hippolyzer/lib/base/datatypes.py" and sign_aware(h)}
+    vp = [a.arg for a in fv.node.args.args if any(
+        isinstance(c.func, ast.Name) and c.func.id in ("repr", "str") and c.args and ap(c.args[0]) == a.arg for c in calls(fv.node))]
+    ctx.require(len(vp) == 1, "C11.R17: cannot identify the value parameter of _format_var")
+    v = vp[0]
+
+    def branch_ok(type_names: Set[str]) -> Tuple[bool, bool]:
+        """(a branch for the type exists, it renders through a sign-aware function)"""
+        seen, good = False, False
+        for c in calls(fv.node, into_defs=True):
+            for e, pol in facts(c, fv.node):
+                if pol and isinstance(e, ast.Call) and ap(e.func) == "isinstance" and len(e.args) == 2 and ap(e.args[0]) == v:
+                    ts = e.args[1].elts if isinstance(e.args[1], ast.Tuple) else [e.args[1]]
+                    if {(ap(t) or "").split(".")[-1] for t in ts} & type_names:
+                        seen = True
+                        if call_attr(c) in renderers:
+                            good = True
+        return seen, good
+    # coordinates: either _format_var renders the components itself, or it uses str() and TupleCoord.__str__ is sign-aware
+    seen_c, good_c = branch_ok({"TupleCoord", "Vector3", "Vector4", "Quaternion", "Vector2"})
+    tc = repo.cls("TupleCoord", "hippolyzer/lib/base/datatypes.py")
+    str_m = repo.lookup_method(tc, "__str__")
+    good_c = good_c or (str_m is not None and (sign_aware(str_m) or any(call_attr(c) in renderers for c in calls(str_m.node, into_defs=True))))
+    ctx.ob("C11.R17", "_format_var: coordinate components keep the sign of a NaN", seen_c and good_c, fv.where,
+           "components are printed with repr(): `<1.0, nan, 1.0>` for 00 00 c0 ff, which parses back as 00 00 c0 7f")
+    seen_f, good_f = branch_ok({"float"})
+    ctx.ob("C11.R17", "_format_var: scalar floats keep the sign of a NaN", seen_f and good_f, fv.where,
+           "scalar floats fall into the generic repr() branch: the x86 default NaN (00 00 c0 ff) prints as `nan` and "
+           "re-encodes as 00 00 c0 7f")
+    ctx.note("C11.R17: NaN payload bits are not carried by the text (every quiet NaN prints as nan / -nan): documented limit")
+
+
 def run(ctx):
+    r17(ctx)
     r16(ctx)
     r15(ctx)
     r14(ctx)
